@@ -752,8 +752,9 @@ def make_classify_w2(seq):
     indirect = any(W2_POOL()[i][0] == "reflist" or (W2_POOL()[i][0] == "range" and isinstance(W2_POOL()[i][3][0], tuple)) for i in seq)
 
     def classify(kind, e, got):
-        # an indirect element that is skipped misaligns everything parsed after it
-        return "C07/W2-indirect-element-ignored" if indirect else None
+        # (on the snapshot an indirect W2 element was skipped and misaligned everything parsed after it; repaired in
+        # /repo by f1a1840 -- keep the generic signatures, only tag the advance ones)
+        return f"C07/widths2:{kind}:with-indirect-element" if indirect and kind in ("adv", "pen") else None
 
     return classify
 
@@ -900,7 +901,7 @@ def coll_cases():
 
 def build_coll(cm, codec, coll):
     vertical = is_vertical_name(cm)
-    s = COLL_SAMPLE[coll] + "A "
+    s = COLL_SAMPLE[coll] + "A （）「」"  # brackets: their vertical CIDs differ, the text must not
     codes = [ch.encode(codec) for ch in s]
     flat, _ = flat_codes(cm)
     exp = []
